@@ -194,7 +194,10 @@ PROPS["C12"] = dict(
          "matches() on that family must be false at every instant. (e2e) PUB->1..3 SUB over tcp/inproc/ipc, subscription changes only at "
          "quiescent points delimited by an always-subscribed sentinel, multipart filtered on frame 0 only: received == published filtered by the "
          "reference. (stall) PUB with SNDHWM=4 and 64 KiB messages while raw subscribers handshake and then stop reading / vanish: every "
-         "send() returns within 1 s and the reading subscriber gets everything in order. distinct = histories / (transport, round, subscriber). "
+         "send() returns within 1 s and the reading subscriber gets everything in order. (resume) PUB with SNDTIMEO 0/30/100/200 ms over "
+         "inproc/tcp/ipc, a real SUB with RCVHWM 2 that stops reading during a burst of 60 and then reads again, beside a SUB that keeps up: "
+         "the stalled one may miss burst messages but must receive all 10 messages published after it resumed; the other must have everything "
+         "in order. distinct = histories / (transport, round, subscriber). "
          "(thorough) the race layer again inside Miri (6 scheduler seeds, mutator bounded by 400 operations): data-race detector, default "
          "aliasing model and weak-memory emulation - loads may return stale values x86 never shows - with the same never-covered-family oracle.",
     assumptions=["'when the message reaches it' is made unambiguous by changing subscriptions only between sentinel-delimited bursts",
@@ -203,6 +206,7 @@ PROPS["C12"] = dict(
     + [dict(bin="c12", args=["--only", "race"], timeout=300, name="c12-race")]
     + sharded("c12", _n(tier, 3, 6), 600, extra=["--only", "e2e"], name="c12-e2e")
     + sharded("c12", 3, 300, extra=["--only", "stall"], name="c12-stall")
+    + sharded("c12", 5, 300, extra=["--only", "resume"], name="c12-resume")
     + sharded("c12", _n(tier, 2, 4), 600, extra=["--only", "contend"], name="c12-contend")
     + ([dict(bin="c12", flavour="tsan", args=["--only", "contend", "--shard", "%d/4" % i], timeout=1500, name="c12-tsan-contend-%d" % i) for i in range(4)]
        + [dict(bin="c12", flavour="tsan", args=["--only", "race"], timeout=1500, name="c12-tsan-race")]
